@@ -245,6 +245,14 @@ func runC18(c *Ctx) {
 			if tb >= fb {
 				return true
 			}
+			// an in-memory length in 32 bits needs a 4 GiB object to wrap (as for the stream encoders below)
+			if lc, isCall := ast.Unparen(call.Args[0]).(*ast.CallExpr); isCall && tb >= 32 {
+				if id, isId := lc.Fun.(*ast.Ident); isId && id.Name == "len" {
+					if _, isB := info.Uses[id].(*types.Builtin); isB {
+						return true
+					}
+				}
+			}
 			nNarrow++
 			src := exprString(call.Args[0])
 			if slack, repoConst, okS := rangeCheckSlack(info, t.Decl, call, call.Args[0], tb); okS && !repoConst {
@@ -2016,6 +2024,29 @@ func failsOnLengthAlone(g *ssa.Function) (pi int, k int64, exact, ok bool) {
 					return 0, 0, false, false
 				}
 				pi, k, exact, found = idx, kk, true, true
+			}
+		}
+		if !found {
+			// a tail call: return h(…, p, …) where h fails on the length of that parameter alone
+			var tc *ssa.Call
+			switch x := ret.Results[ei].(type) {
+			case *ssa.Call:
+				tc = x
+			case *ssa.Extract:
+				tc, _ = x.Tuple.(*ssa.Call)
+			}
+			if tc != nil {
+				if h := tc.Call.StaticCallee(); h != nil && h != g && load.FuncInRepo(h) {
+					if hpi, hk, hexact, hok := failsOnLengthAlone(h); hok && hpi < len(tc.Call.Args) {
+						if prm, isP := tc.Call.Args[hpi].(*ssa.Parameter); isP {
+							for i, q := range g.Params {
+								if q == prm && (pi < 0 || (pi == i && hk == k && hexact == exact)) {
+									pi, k, exact, found = i, hk, hexact, true
+								}
+							}
+						}
+					}
+				}
 			}
 		}
 		if !found {
